@@ -51,6 +51,8 @@ type Item struct {
 	Tag  string `json:"tag,omitempty"` // generator annotation used by oracles
 	// NoReply: nothing is expected back (malformed input); the script continues at once.
 	NoReply bool `json:"noReply,omitempty"`
+	// Cuts: byte offsets at which the request is cut into separate deliveries (overrides the tape)
+	Cuts []int `json:"cuts,omitempty"`
 	// Now: a non-command item runs although replies are still outstanding.
 	Now bool `json:"now,omitempty"`
 }
